@@ -11,6 +11,7 @@ R16.3 SPECIALISATION-PARITY  the members explicitly specialised for
       Linear_Expression_Impl<Dense_Row> and <Sparse_Row> are the same set.
 """
 from pplv import facts as F
+from pplv import flow
 from pplv.shape import canon, first_diff
 
 D2S = [(r"Dense_Row", "ROW"), (r"Sparse_Row", "ROW"), (r"Dense_Ptr", "PTR"), (r"Sparse_Ptr", "PTR"),
@@ -274,6 +275,103 @@ def units():
             F.driver_unit("all_headers.cc", file_re=r"(Linear_Expression|globals)_inlines\.hh|Linear_Expression_templates\.hh|Expression_.*\.hh")]
 
 
+def _conjuncts(f, n):
+    """Texts (spaces removed) of the conjuncts of an `&&` tree."""
+    n = f.deref(n)
+    while n is not None and n["k"] in ("cast", "paren") and n.get("c"):
+        n = f.deref(n["c"][0])
+    if n is not None and n["k"] == "binop" and n.get("op") == "&&":
+        return _conjuncts(f, n["c"][0]) | _conjuncts(f, n["c"][1])
+    return {f.text(n).replace(" ", "").strip("()")} if n is not None else set()
+
+
+def r16_6(ctx):
+    """Asserted no-alias preconditions of CO_Tree (a reference argument that may point into the tree's own
+    storage, which the insertion relocates) are discharged at every call site."""
+    import re
+    rid = "R16.6"
+    ctx.rule(rid, "no alias into relocated storage: a CO_Tree member that asserts on entry that a reference parameter does not point into the tree's own data array (`!(data <= &p && &p < data + ...)`: the insertion reallocates or rebalances before it reads p) is called, with a reference parameter of the caller as argument, only on the false edge of a test that is true whenever that address range test is (the guard's conjuncts are among the asserted ones, none added), or from a caller asserting the same; arguments that are not caller-supplied references (a call result, a local copy) need nothing. Otherwise `row.insert(j, row.get(i))` / `e.set_coefficient(Y, e.coefficient(X))` stores a coefficient that was moved away under the reference, in the sparse representation only")
+    fx = ctx.extract([F.lib_unit("CO_Tree.cc", view="debug"),
+                      F.driver_unit("all_headers.cc", view="debug", file_re=r"CO_Tree_inlines\.hh")])
+    fs = [f for f in fx.functions if f.clsn == "CO_Tree" and f.cfg and not f.flag("pattern")]
+    # 1. the asserted alias preconditions: (function name, arity) -> (param index, param name, conjuncts)
+    req = {}
+    for f in fs:
+        refparams = [(i, p["n"]) for i, p in enumerate(f.params) if "&" in p.get("t", "") or "const_reference" in p.get("t", "")]
+        for a in f.walk():
+            if a["k"] == "cond" and len(a.get("c", ())) == 3 and any(f.call_name(c) == "ppl_assertion_failed" for c in f.calls(f.deref(a["c"][2]))):
+                cn = f.deref(a["c"][0])
+                neg = False
+                while cn is not None and (cn["k"] in ("cast", "paren") or (cn["k"] == "unop" and cn.get("op") == "!")):
+                    if cn["k"] == "unop":
+                        neg = not neg
+                    cn = f.deref(cn["c"][0])
+                for i, pn in refparams:
+                    if cn is not None and neg and re.search(r"&\s*%s\b" % re.escape(pn), f.text(cn)):
+                        req[(f.name, len(f.params))] = (i, pn, _conjuncts(f, cn), f, a)
+    ctx.require(rid, len(req) >= 1, "no asserted address-range precondition found in CO_Tree (assertion-enabled view)")
+    n = 0
+    for f in fs:
+        for c in f.calls():
+            key = (f.call_name(c), len(f.call_args(c)))
+            if key not in req or c["k"] not in ("mcall", "call"):
+                continue
+            if c["k"] == "mcall" and f.call_obj(c) is not None and f.root(f.call_obj(c)) != ("this",):
+                continue
+            pi, pn, want, g, _ = req[key]
+            arg = f.deref(f.call_args(c)[pi])
+            while arg is not None and arg["k"] in ("cast", "paren") and arg.get("c"):
+                arg = f.deref(arg["c"][0])
+            n += 1
+            inst = "CO_Tree::%s calls %s with `%s`" % (f.name, g.name, f.text(arg))
+            if arg is not None and arg["k"] in ("call", "mcall", "construct", "lit", "int"):
+                ctx.ok(rid, inst + " (not a caller-supplied reference)", f.where(c))
+                continue
+            ctx.require(rid, arg is not None and arg["k"] == "ref", "%s: unknown form of the argument `%s`" % (inst, f.text(arg)))
+            if arg.get("dk") == "local":
+                v = f.var_decl(arg["n"]) if hasattr(f, "var_decl") else None
+                ctx.require(rid, v is not None and "&" not in v.get("t", "&"), "%s: the local `%s` is a reference: unknown form" % (inst, arg["n"]))
+                ctx.ok(rid, inst + " (a local copy)", f.where(c))
+                continue
+            q = arg["n"]
+            mine = req.get((f.name, len(f.params)))
+            if mine is not None and mine[1] == q and {t.replace(q, pn) for t in mine[2]} == want:
+                ctx.ok(rid, inst + " (the caller asserts the same precondition)", f.where(c))
+                continue
+            # guards: once-defined bool locals whose definition is a conjunction of asserted conjuncts
+            good, weak = set(), {}
+            for v in f.walk():
+                if v["k"] == "var" and v.get("c") and "bool" in v.get("t", ""):
+                    cj = {t.replace(q, pn) for t in _conjuncts(f, v["c"][0])}
+                    if not any(("&" + pn) in t for t in cj):
+                        continue
+                    writes = [a for a in f.walk() if a["k"] == "assign" and f.deref(a["c"][0]) is not None and f.deref(a["c"][0]).get("n") == v["n"]]
+                    if cj and cj <= want and not writes:
+                        good.add(v["n"])
+                    else:
+                        weak[v["n"]] = sorted(cj - want)
+
+            def edge_sat(tc, taken):
+                pol = True
+                x = tc
+                while x is not None and (x["k"] in ("cast", "paren") or (x["k"] == "unop" and x.get("op") == "!")):
+                    if x["k"] == "unop":
+                        pol = not pol
+                    x = f.deref(x["c"][0])
+                if x is not None and x["k"] == "ref" and x.get("n") in good:
+                    return taken != pol        # the edge on which the flag is false
+                return False
+            path = flow.must_precede(f, c, lambda x: False, edge_satisfied=edge_sat, track_env=False)
+            if path is None:
+                ctx.ok(rid, inst, f.where(c))
+            else:
+                extra = ""
+                if weak:
+                    extra = "; the test `%s` does not imply it (it also requires %s)" % (", ".join(sorted(weak)), ", ".join("`%s`" % t for ts in weak.values() for t in ts) or "something else")
+                ctx.violation(rid, inst, f.where(c), "`%s` may point into this tree's own storage when %s relocates the coefficients before reading it: no test that is true whenever `%s` holds guards the call (path %s)%s" % (q, g.name, " && ".join(sorted(want)), flow.render_path(f, path), extra))
+    ctx.floor(rid, n, 2, "call sites of members asserting a no-alias precondition")
+
+
 def run(ctx):
     ctx.explanation = ("C16 structural clauses: Dense/Sparse dispatch arms, Representation switches and explicit "
                        "specialisations agree (necessary for representation independence); decides the dispatch clause, "
@@ -285,6 +383,7 @@ def run(ctx):
     r16_2(ctx, fx)
     r16_3(ctx, fx)
     r16_4(ctx)
+    r16_6(ctx)
     from rules import dirty
     fxd = ctx.extract([F.lib_unit(n) for n in ("Linear_Expression.cc", "Linear_Expression_Impl.cc", "Sparse_Row.cc", "Dense_Row.cc", "Scalar_Products.cc", "CO_Tree.cc")]
                       + [F.driver_unit("domains.cc", file_re=r"(Linear_Expression_Impl_templates|Linear_Expression_inlines|Linear_System_templates|Matrix_templates|Sparse_Row_templates)\.hh")])
